@@ -35,9 +35,10 @@ CHECKS = {
     "C02": dict(
         text="Lean theorems: generate returns a coherent trace for every constraint map; weight 0 without constraints; weight = minus the scores "
              "of exactly the constrained leaves (GF.cw) for every program; score = -assess(choices) for every program incl. Cond; every constrained address holds the constrained value and every other value is the sampler's draw for the parameters computed from the trace; generate with a covering constraint IS assess; in the finite-distribution "
-             "semantics generate is properly weighted and E[weight] = sum over completions of the joint mass (Cond-free programs). Tie: generate on the real code for "
+             "semantics generate is properly weighted outcome by outcome and against every function of the observable trace, E[weight] = marginal likelihood of the constraints = sum over completions "
+             "of the joint mass, and generate never raises on a completable constraint - every program incl. Cond with same-shape branches (counterexamples proved for mixed shapes and for test functions of the hidden branch). Tie: generate on the real code for "
              "all/none/partial constraint subsets of generated programs vs the Lean model and the reference semantics.",
-        note=TB + "C02: the expected-weight theorems are proved for Cond-free programs (for Cond with same-shape branches checked on instances; mixed-shape branches refuted); kwargs by twin programs.",
+        note=TB + "C02: the expected-weight theorems are about finite-support primitives (normalised, for programs with Cond); kwargs are modelled as positional arguments, checked by twin programs.",
         technique="Lean 4 proof + differential correspondence over constraint subsets",
         design="§3 C02"),
     "C03": dict(
@@ -200,7 +201,8 @@ CHECKS = {
              "dimension for categorical / multinomial / dirichlet / multivariate_normal), plus parameter-pinning lemmas (gamma(a,r)(x) = r*gamma(a,1)(r x), "
              "chi2(k) = gamma(k/2,1/2), half_normal = 2*normal on x>=0, log_normal via log, student_t(1) = cauchy, mvn(diag sigma^2) = product of normals, ...). "
              "Each density is also given as a closed term of an executable expression AST (Model/DistExpr.lean) whose real denotation is PROVED equal to that density "
-             "(24 theorems C13_spec_<name>_denotes; vector distributions at fixed dimension 3 / 2). Tie: the compiled model driver prints those terms, the "
+             "(24 theorems C13_spec_<name>_denotes; vector distributions at fixed dimension 3 / 2). TRANSLATOR tie: the table (genjax name -> TFP class, which argument feeds which "
+             "TFP parameter) is REGENERATED from the current source of distributions.py on every run and Lean re-checks it against the documented table (implTable_is_documented). Correspondence tie: the compiled model driver prints those terms, the "
              "harness evaluates them in float64 and compares with dist.logpdf on parameter x support grids for all 24 distributions; also vs scipy, numeric "
              "normalisation, seeded draws (scalar, sample_shape, vectorised) vs reference CDF/PMF (KS / chi-square, alpha=1e-6), shapes and dtypes, "
              "extreme logit spreads, user-wrapped tfp_distribution / distribution.",
